@@ -15,7 +15,7 @@ def key(v, ev):
 
 def gen(thorough=False):
     res = []
-    for rc in (1, 2, 3, 4, 5, 6):
+    for rc in (1, 2, 3, 4, 5, 6, 7):        # 7: schedules with a Clear (K = 2)
         res.append(vlib.generate(SPEC, "MC_SixelQueue", f"Gen_SixelQueue_{rc}.cfg", os.path.join(vlib.GEN, f"sixel_sched_{rc}.ndjson")))
     res.append(vlib.generate(SPEC, "Gen_SixelGeo", "Gen_SixelGeo.cfg", os.path.join(vlib.GEN, "sixel_geo.ndjson")))
     res.append(vlib.generate(SPEC, "MC_SixelDecoder", "Gen_SixelDecoder.cfg", os.path.join(vlib.GEN, "sixel_payloads.ndjson"), workers=4))
@@ -38,7 +38,7 @@ def run():
     g = gen(thorough)
     dec = os.path.join(c.workdir, "dec.ndjson")
     que = os.path.join(c.workdir, "queue.ndjson")
-    scheds = [os.path.join(vlib.GEN, f"sixel_sched_{rc}.ndjson") for rc in (1, 2, 3, 4, 5, 6)] + [os.path.join(vlib.GEN, "sixel_geo.ndjson")]
+    scheds = [os.path.join(vlib.GEN, f"sixel_sched_{rc}.ndjson") for rc in (7, 1, 2, 3, 4, 5, 6)] + [os.path.join(vlib.GEN, "sixel_geo.ndjson")]
     if thorough:
         scheds += [os.path.join(vlib.GEN, f"sixel_sched_{rc}_k4.ndjson") for rc in (2, 4)]
     vlib.drive(["c14", "--seed", c.seed, "--tier", c.tier, "--out-dec", dec, "--out-queue", que, "--gen-dec", os.path.join(vlib.GEN, "sixel_payloads.ndjson"),
